@@ -30,6 +30,7 @@ type cfg struct {
 	Stop    bool
 	Runners int
 	Fail    bool   // compute fails (non-retry error) once version of R0 reaches 2
+	Stops   int    // 1: the context the rerunner was created with is cancelled just before Stop; 2: two threads call Stop
 	Retry   int    // 1: the top-level computation returns RetrySentinelError once, after registering its dependencies, when item 0 is at version >= 1; 2: the same inside its first cached child
 	Pre     string // items written one at a time by the main thread, each followed by quiescence, before the concurrent phase ("-" = none)
 }
@@ -41,7 +42,7 @@ func (c cfg) name() string {
 
 func (c cfg) pre() string {
 	s := ""
-	if c.Pre != "" || c.Retry != 0 {
+	if c.Pre != "" || c.Retry != 0 || c.Stops != 0 {
 		p := c.Pre
 		if p == "" {
 			p = "-"
@@ -51,13 +52,16 @@ func (c cfg) pre() string {
 	if c.Retry != 0 {
 		s += fmt.Sprintf(" retry=%d", c.Retry)
 	}
+	if c.Stops != 0 {
+		s += fmt.Sprintf(" stops=%d", c.Stops)
+	}
 	return s
 }
 
 func parse(s string) cfg {
 	var c cfg
-	s = strings.NewReplacer("shape=", "", "mode=", "", "nres=", "", "writers=", "", "writes=", "", "spawn=", "", "minint=", "", "wtr=", "", "stop=", "", "runners=", "", "fail=", "", "pre=", "", "retry=", "").Replace(s)
-	fmt.Sscan(s, &c.Shape, &c.Mode, &c.NRes, &c.Writers, &c.Writes, &c.Spawn, &c.MinInt, &c.WTR, &c.Stop, &c.Runners, &c.Fail, &c.Pre, &c.Retry)
+	s = strings.NewReplacer("shape=", "", "mode=", "", "nres=", "", "writers=", "", "writes=", "", "spawn=", "", "minint=", "", "wtr=", "", "stop=", "", "runners=", "", "fail=", "", "pre=", "", "retry=", "", "stops=", "").Replace(s)
+	fmt.Sscan(s, &c.Shape, &c.Mode, &c.NRes, &c.Writers, &c.Writes, &c.Spawn, &c.MinInt, &c.WTR, &c.Stop, &c.Runners, &c.Fail, &c.Pre, &c.Retry, &c.Stops)
 	if c.Pre == "-" {
 		c.Pre = ""
 	}
@@ -299,13 +303,18 @@ func item(c cfg) *explore.Item {
 		}
 		start := vtime.Now()
 		var runners []*runner
+		var cancelParent context.CancelFunc
 		for i := 0; i < c.Runners; i++ {
 			rn := &runner{w: w, id: i}
 			if c.Shape == "after" {
 				rn.afterLeft = 2
 			}
 			runners = append(runners, rn)
-			rn.rr = reactive.NewRerunner(context.Background(), rn.compute, time.Duration(c.MinInt)*time.Millisecond, c.Spawn)
+			parent := context.Background()
+			if c.Stops == 1 && i == 0 {
+				parent, cancelParent = rt.WithCancel(parent)
+			}
+			rn.rr = reactive.NewRerunner(parent, rn.compute, time.Duration(c.MinInt)*time.Millisecond, c.Spawn)
 		}
 		// chained history: reach a non-initial state (orphaned / re-used cached children, several generations of
 		// per-run resources) one settled step at a time, then explore the concurrent phase from there
@@ -326,14 +335,21 @@ func item(c cfg) *explore.Item {
 		}
 		if c.Stop {
 			rn := runners[0]
-			rt.Go(func() {
+			stopper := func() {
+				if cancelParent != nil {
+					cancelParent() // the creator's context ends first (client went away), then Stop is called
+				}
 				rn.rr.Stop()
 				w.touch()
 				if rn.running != 0 {
 					x.Fail("stop-waits", "", "Stop returned while a run of runner %d was in progress", rn.id)
 				}
 				rn.stopped = true
-			})
+			}
+			rt.Go(stopper)
+			if c.Stops == 2 {
+				rt.Go(stopper)
+			}
 		}
 		rt.QuiesceWithin(time.Minute)
 
@@ -440,6 +456,13 @@ func c04configs(tier string) []cfg {
 	}
 	out = append(out, cfg{Shape: "after", Mode: "perrun", NRes: 1, Writers: 1, Writes: 1, Runners: 1})
 	out = append(out, cfg{Shape: "after", Mode: "perrun", NRes: 1, Writers: 1, Writes: 1, Runners: 1, Stop: true})
+	// Stop after the creator's context was cancelled, and two concurrent Stops
+	for _, stops := range []int{1, 2} {
+		for _, shape := range []string{"direct", "cache"} {
+			out = append(out, cfg{Shape: shape, Mode: "perrun", NRes: 1, Writers: 1, Writes: 1, Runners: 1, Stop: true, Stops: stops})
+		}
+		out = append(out, cfg{Shape: "direct", Mode: "strobe", NRes: 1, Writers: 1, Writes: 2, Runners: 1, Stop: true, Spawn: true, Stops: stops})
+	}
 	// from non-initial states: a cached child that was used, skipped by a later run and used again (cond: child c1 only
 	// while item 0 is odd); a purged cache; several generations of resources - then one concurrent write per item
 	for _, pre := range []string{"0", "00", "000", "0100"} {
@@ -514,7 +537,7 @@ func runWith(cfgs func(string) []cfg) func(rp *explore.Report, tier string) {
 func init() {
 	mk := func(name string) *explore.Item { return item(parse(name)) }
 	reg.Register(&reg.Harness{Property: "C04", Name: "c04/rerunner", Level: "model_checking", Bounds: [2]int{3, 4}, Run: runWith(c04configs), Item: mk,
-		Rule: "items = dependency shape (direct/cached/shared child/conditional/InvalidateAfter) x resource mode (strobed long-lived, per-run + Invalidate) x writers/writes x alwaysSpawnGoroutine x minRerunInterval x WriteThenReadDelay x stopper x 1-2 rerunners x failing computation; all interleavings within the deviation bound on the real reactive package; oracle: run overlap counter, no run after Stop returned, versions read by the last completed run == current versions at quiescence"})
+		Rule: "items = dependency shape (direct/cached/shared child/conditional/InvalidateAfter) x resource mode (strobed long-lived, per-run + Invalidate) x writers/writes x alwaysSpawnGoroutine x minRerunInterval x WriteThenReadDelay x stopper (also after the creator's context was cancelled, and two concurrent Stops) x 1-2 rerunners x failing computation; all interleavings within the deviation bound on the real reactive package; oracle: run overlap counter, no run after Stop returned, versions read by the last completed run == current versions at quiescence"})
 	reg.Register(&reg.Harness{Property: "C08", Name: "c08/cache", Level: "model_checking", Bounds: [2]int{3, 5}, Run: runWith(c08configs), Item: mk,
 		Rule: "items = cached sub-computation trees (1-2 cached children, shared child, two-level, conditional, PurgeCache inside a run, InvalidateAfter) x writers x stopper; oracle: versions embedded in the final output (through cached children) == current versions at quiescence; Cleanup callback count per resource <=1 always, ==1 for superseded/stopped and ==0 for live resources at quiescence, ==1 for all after Stop; InvalidateAfter timers disarmed by cleanup"})
 }
